@@ -69,6 +69,10 @@ def configs(tier):
             out.append(dict(kind="load", ndim=3, sel=sel, ordering=ordering, _split=3))
     for sel in ("value", "position-x", "value+position"):
         out.append(dict(kind="load", ndim=2, sel=sel, ordering="planar", _split=3))
+    # a position predicate together with a level predicate that caps the levels read below the header's levelmax (the key table
+    # stays expressed at levelmax + 1): the header announces one level more than the tree has, the predicate accepts l <= 2
+    for sel in (("position-x+level",) if tier == "quick" else ("position-x+level", "position-xz+level")):
+        out.append(dict(kind="load", ndim=3, sel=sel, ordering="hilbert", _split=4))
     return out
 
 
@@ -282,8 +286,9 @@ def _load(m, cfg):
     tag = f"load:{ndim}d:{sel}:{ordering}"
     us = B.UNITSETS[0]
     if ndim == 3:
-        fcfg = dict(ncpu=2, ndim=3, levelmin=1, levelmax=2, nboundary=0, nxyz=(1, 1, 1), unit_d=us[0], unit_l=us[1], unit_t=us[2], boxlen=us[3],
-                    nout=1, bound_keys=[0, 4 * 64, 512], ordering=ordering)
+        Lh = 3 if "level" in sel else 2            # levelmax announced by the header
+        fcfg = dict(ncpu=2, ndim=3, levelmin=1, levelmax=Lh, nboundary=0, nxyz=(1, 1, 1), unit_d=us[0], unit_l=us[1], unit_t=us[2], boxlen=us[3],
+                    nout=1, bound_keys=[0, 4 * 8 ** Lh, 8 ** (Lh + 1)], ordering=ordering)
         out = LC.Output(m, fcfg)
         aligned_tree(out, cfg)
     else:
@@ -319,6 +324,8 @@ def _load(m, cfg):
             if "xz" in sel:
                 z0 = m.real("z0", lo=0.4 * size, hi=0.6 * size)
                 select["position_z"] = lambda z: z >= Array(z0, unit="cm")
+        if "level" in sel:
+            select["level"] = lambda l: l <= 2
         if sel == "cpulist":
             kw["cpu_list"] = [2]
         if select:
